@@ -46,9 +46,8 @@ def showEvent : Event → Option String
     let h := match rh with | some h => toHex (h.drop 8) | none => "-"
     some s!"ev:page:{hexN pgno}.{hexN subno}:{if roll then 1 else 0}{if hu then 1 else 0}{if roll then c else "-"}:{pn}:{h}"
   | .chsw => none            -- not observable from outside (no event is sent)
-  | .fault _ => none         -- model-side safety flags (C01); the C code has no counterpart to print
+  | .aux _ => none           -- cache look-ups and model-side safety flags (C01): nothing to print in C
   | .put _ => none
-  | .touch _ _ _ => none
 
 def asmInfo (s : St) (p : Packet) : String :=
   let cur := match s.current with | some m => toString m | none => "-"
@@ -96,7 +95,7 @@ def step (s : St) (ws : List String) : St × String :=
       match parseNat h with
       | some m =>
         if m < 1 || m > 8 then (s, "rej parse") else
-        let mg := s.mag m
+        let mg := s.net.mag m
         (s, "ok ext=" ++ showExt mg.ext ++ " poplut=" ++ toHex (mg.popLut.map intToU8) ++ " drcslut=" ++
               toHex (mg.drcsLut.map intToU8) ++ " poplink=" ++
               ";".intercalate (mg.popLink.map fun l => s!"{l.pgno},{l.blackBg},{l.left},{l.right},{l.type0},{l.addr0},{l.type1},{l.addr1}") ++
@@ -105,25 +104,25 @@ def step (s : St) (ws : List String) : St × String :=
     else (s, "rej op")
   | ["gap"] => (gap s, "ok")
   | ["cached"] =>
-    (s, "ok" ++ String.join ((sortPages s.cache).map fun p => s!" {hexN p.pgno}.{hexN p.subno}:{p.function}"))
+    (s, "ok" ++ String.join ((sortPages s.net.cache).map fun p => s!" {hexN p.pgno}.{hexN p.subno}:{p.function}"))
   | ["page", a, b] =>
     match parseNat a, parseNat b with
     | some pgno, some subno =>
-      (match s.cache.find? (fun q => q.pgno == pgno && q.subno == subno) with
+      (match s.net.cache.find? (fun q => q.pgno == pgno && q.subno == subno) with
        | some q => (s, "ok " ++ showPage q)
        | none => (s, "ok none"))
     | _, _ => (s, "rej parse")
   | ["stat"] =>
     let items := (List.range 0x800).filterMap fun i =>
-      let ps := s.stat.getD i PageStat.init
+      let ps := s.net.stat.getD i PageStat.init
       if ps == PageStat.init then none
       else some s!" {hexN (i + 0x100)}:{hexN ps.pageType}:{hexN ps.charset}:{hexN ps.subcode}"
     (s, "ok" ++ String.join items)
   | ["net"] =>
     (s, s!"ok mask={if s.mask then 1 else 0} cd={s.chswcd} hdrpgno={hexN s.hdrPgno} header={toHex s.header} cur=" ++
         (match s.current with | some m => toString m | none => "-") ++
-        s!" initial={showLink s.initialPage} top={if s.haveTop then 1 else 0} btt=" ++
-        ";".intercalate (s.bttLink.map showLink))
+        s!" initial={showLink s.net.initialPage} top={if s.net.haveTop then 1 else 0} btt=" ++
+        ";".intercalate (s.net.bttLink.map showLink))
   | ["charsets"] => (s, "ok " ++ String.ofList ((List.range 88).map fun n => if validCharset n then '1' else '0'))
   | ["sizes"] => (s, s!"ok enh={ENH_SIZE} poppointer={POP_POINTER_SIZE} poptriplet={POP_TRIPLET_SIZE} ait={AIT_TITLES} btt={BTT_LINKS} link={LINKS} pages={0x800} mags=8 rawpages=8")
   | _ => (s, "rej op")
